@@ -229,7 +229,7 @@ def x_stream(ctx, case):
             ctx.check(again == expected, "stream.each-evaluation-from-the-offset",
                       lambda: {"second evaluation": again, "expected": expected, "ops": s.ops})
             part = c.iter_bytes()
-            next(part, None)                  # an abandoned partial read ...
+            next(iter(part), None)            # an abandoned partial read ...
             third = b"".join(c.iter_bytes())  # ... does not shorten the next one
             ctx.check(third == expected, "stream.each-evaluation-from-the-offset",
                       lambda: {"evaluation after an abandoned partial read": third, "expected": expected})
